@@ -29,7 +29,11 @@
 //!   time limiter `to:<ms>|max`; bulkhead `mc:<max concurrent>` `mw:<ms>` (not set = wait for ever); cache `sz:<n>` `ttl:<ms>|max`
 //!   `ev:lru|lfu|fifo`; circuit `cb:<window>:<minimum calls>:<failure rate %>`; adaptive `lim:<n>` (initial = min = max);
 //!   chaos `ef:0` (no `error_fn`) `ero:1` (`error_fn` before `error_rate`) `lat:1` (latency bounds set, rate 0);
-//!   reconnect `pol:none` `ma:<n>|unl` `ror:0`; executor `ex:handle`.
+//!   reconnect `pol:none` `ma:<n>|unl` `ror:0`; executor `ex:handle|new|cur` (explicit handle, `ExecutorLayer::new(CurrentRuntime::new())`,
+//!   `ExecutorLayer::current()`; default `builder().current()`); retry also `po:1` (`retry_on` BEFORE the back-off setter)
+//!   `bk:fixed|exp|fn` (`fixed_backoff` / `exponential_backoff` / `backoff(f)`).
+//! `arrive … off=1`: the request is made — `poll_ready`, `call`, first poll — on a plain OS thread OUTSIDE any tokio context; the
+//! call future is handed back and polled by the case's runtime from then on (for stacks with `executor` outermost).
 //! Every answer of the observed stack is also recorded as `@fin=<c>:<answer>` (spaces as `_`) on the operation that produced
 //! it: the model driver answers with ITS `result` line for the request — the answer `TR.Stack.denote` predicts from the layers'
 //! configurations and the request's scripted outcomes wherever it predicts one, the observed answer otherwise.
@@ -857,11 +861,18 @@ fn apply(name: &str, inner: BoxSvc, lc: &Arc<ListenerCounts>, pr: &Option<Arc<Pr
             let ma = cf.u64("ma", 3) as usize;
             let b = RetryLayer::<Req, SErr>::builder();
             let b = if cf.u64("maf", 0) == 1 { b.max_attempts_fn(move |_r: &Req| ma) } else { b.max_attempts(ma) };
-            let b = b.fixed_backoff(Duration::from_millis(cf.u64("bo", 5)));
-            let b = match cf.str("ro", "e1") {
-                "all" => b,
-                w => b.retry_on(err_pred(w)),
+            // `po:1`: the predicate is installed BEFORE the back-off setter (the builder's setters must commute);
+            // `bk:fixed|exp|fn`: which of the three back-off setters (`fixed_backoff`, `exponential_backoff`, `backoff(f)`)
+            let d = Duration::from_millis(cf.u64("bo", 5));
+            let ro = cf.str("ro", "e1").to_string();
+            let pred_first = cf.u64("po", 0) == 1;
+            let b = if pred_first && ro != "all" { b.retry_on(err_pred(&ro)) } else { b };
+            let b = match cf.str("bk", "fixed") {
+                "exp" => b.exponential_backoff(d),
+                "fn" => b.backoff(tower_resilience_retry::FnInterval::new(move |_attempt: usize| d)),
+                _ => b.fixed_backoff(d),
             };
+            let b = if !pred_first && ro != "all" { b.retry_on(err_pred(&ro)) } else { b };
             let layer = b
                 .on_success(move |_| l0.hit(0))
                 .on_success(move |_| l1.hit(1))
@@ -1042,13 +1053,20 @@ fn apply(name: &str, inner: BoxSvc, lc: &Arc<ListenerCounts>, pr: &Option<Arc<Pr
         }
         // executor: the current runtime (no event listeners in this crate)
         "executor" => {
-            use tower_resilience_executor::{ExecutorError, ExecutorLayer};
-            let b = ExecutorLayer::<tokio::runtime::Handle>::builder();
-            let layer = if cf.str("ex", "") == "handle" { b.handle(tokio::runtime::Handle::current()).build() } else { b.current().build() };
-            boxed(map_e(layer.layer(inner), |e| match e {
+            use tower_resilience_executor::{CurrentRuntime, ExecutorError, ExecutorLayer};
+            let me = |e| match e {
                 ExecutorError::Service(e) => SErr(format!("executor({})", e)),
                 ExecutorError::TaskCancelled => SErr("executor!cancelled".into()),
-            }))
+            };
+            // every way of saying "the runtime this layer is built on" (the stack is built inside the case's runtime):
+            // `ex:handle` an explicit handle, `ex:new` `ExecutorLayer::new(CurrentRuntime::new())`, `ex:cur` the
+            // constructor `ExecutorLayer::current()`, otherwise `builder().current()`
+            match cf.str("ex", "") {
+                "new" => boxed(map_e(ExecutorLayer::new(CurrentRuntime::new()).layer(inner), me)),
+                "cur" => boxed(map_e(ExecutorLayer::current().layer(inner), me)),
+                "handle" => boxed(map_e(ExecutorLayer::<tokio::runtime::Handle>::builder().handle(tokio::runtime::Handle::current()).build().layer(inner), me)),
+                _ => boxed(map_e(ExecutorLayer::<tokio::runtime::Handle>::builder().current().build().layer(inner), me)),
+            }
         }
         // chaos: both rates 0, seeded; its error type is the inner one (no wrapper)
         "chaos" => {
@@ -1371,8 +1389,43 @@ impl Adapter {
 impl Mw for Adapter {
     /// `arrive c tag=… inner=… [how=clone|held] [polls=<n>]`
     fn arrive(&mut self, c: usize, kv: &Kv) -> Option<CallFut> {
-        let a = self.main.start(c, kv);
-        let b = self.twin.as_mut().map(|t| t.start(c, kv));
+        let (a, b) = if kv.u64("off", 0) == 1 {
+            // `off=1`: the caller lives on a plain OS thread with NO tokio context: `poll_ready`, `call` and the first poll
+            // of the call future happen there (both stacks, in the usual order); the future is then handed back to the
+            // case's runtime, which runs whatever the layers have spawned on it and polls the future from then on. The
+            // runtime thread waits for the hand-over, so the case stays deterministic. Meant for stacks whose outermost
+            // layer moves the work onto the runtime it was built on (executor): nothing above it needs a reactor.
+            let (main, twin) = (&mut self.main, &mut self.twin);
+            let r = std::thread::scope(|s| {
+                let h = std::thread::Builder::new().name("off-runtime".into()).spawn_scoped(s, move || {
+                    let first = |st: Started| match st {
+                        Started::Fut(mut f) => match poll_once(&mut f) {
+                            Poll::Ready(ans) => Started::Fut(Box::pin(std::future::ready(ans))),
+                            Poll::Pending => Started::Fut(f),
+                        },
+                        d => d,
+                    };
+                    let a = first(main.start(c, kv));
+                    let b = twin.as_mut().map(|t| first(t.start(c, kv)));
+                    (a, b)
+                });
+                match h {
+                    Ok(h) => h.join().ok(),
+                    Err(_) => None,
+                }
+            });
+            match r {
+                Some(r) => r,
+                None => {
+                    log_raw("#off-runtime-thread-failed".into());
+                    (Started::Done("panic".into()), None)
+                }
+            }
+        } else {
+            let a = self.main.start(c, kv);
+            let b = self.twin.as_mut().map(|t| t.start(c, kv));
+            (a, b)
+        };
         let tp = self.twin.as_ref().and_then(|t| t.pr.clone());
         if let Some(p) = &tp {
             p.launch_wanted();
